@@ -171,16 +171,25 @@ func TestC08Rapid(t *testing.T) {
 				kind := ""
 				d := rapid.SampledFrom(w.denoms).Draw(rt, "denom")
 				amt := int64(rapid.IntRange(0, 100000).Draw(rt, "amt"))
-				if hk := rapid.IntRange(0, 9).Draw(rt, "hook"); hk < 3 && to == recipient.Str {
+				if hk := rapid.IntRange(0, 9).Draw(rt, "hook"); hk < 5 && to == recipient.Str {
 					num, seq := accInfo(tc.l2, recipient)
-					spend := math.NewInt(1)
-					kind = "hook-ok"
-					if hk == 0 {
-						spend = math.NewInt(1 << 50) // the hook overspends: deposit is refunded
-						kind = "hook-fail"
+					l2d := tcL2Denom(tc, d)
+					send := func(v int64) sdk.Msg {
+						return banktypes.NewMsgSend(recipient.Addr, tc.users[(rapid.IntRange(0, 4).Draw(rt, "hookto"))].Addr, sdk.NewCoins(sdk.NewCoin(l2d, math.NewInt(v))))
 					}
-					m := banktypes.NewMsgSend(recipient.Addr, tc.users[(rapid.IntRange(0, 4).Draw(rt, "hookto"))].Addr, sdk.NewCoins(sdk.NewCoin(tcL2Denom(tc, d), spend)))
-					data = signTx(tc.l2, []sdk.Msg{m}, []cryptotypes.PrivKey{recipient.Priv}, []uint64{num}, []uint64{seq}, henv.L2ChainID)
+					wdraw := opchildtypes.NewMsgInitiateTokenWithdrawal(recipient.Str, tc.users[rapid.IntRange(0, 4).Draw(rt, "hookwto")].Str, sdk.NewCoin(l2d, math.OneInt()))
+					var msgs []sdk.Msg
+					switch hk {
+					case 0:
+						kind, msgs = "hook-fail", []sdk.Msg{send(1 << 50)} // the hook overspends: deposit is refunded
+					case 1, 2:
+						kind, msgs = "hook-ok", []sdk.Msg{send(1)}
+					case 3:
+						kind, msgs = "hook-withdraws", []sdk.Msg{send(1), wdraw}
+					case 4:
+						kind, msgs = "hook-withdraws-then-fails", []sdk.Msg{wdraw, send(1 << 50)}
+					}
+					data = signTx(tc.l2, msgs, []cryptotypes.PrivKey{recipient.Priv}, []uint64{num}, []uint64{seq}, henv.L2ChainID)
 				}
 				r, p := tc.l1Deposit(from, to, coinOf(d, amt), data)
 				w.logf("L1 deposit %d%s from %s to %q %s -> %v", amt, d, short(from.Str), truncStr(to, 16), kind, r.Err)
